@@ -438,8 +438,12 @@ impl RenderContext {
 
         let header = frame.header();
         // Check if LF frame exists
-        if header.flags.use_lf_frame() && self.lf_frame[header.lf_level as usize] == usize::MAX {
-            return Err(Error::UninitializedLfFrame(header.lf_level));
+        if header.flags.use_lf_frame() {
+            // There's no LF frame of level 5 for a frame of level 4 to use.
+            let lf_frame = self.lf_frame.get(header.lf_level as usize).copied();
+            if lf_frame.unwrap_or(usize::MAX) == usize::MAX {
+                return Err(Error::UninitializedLfFrame(header.lf_level));
+            }
         }
 
         self.loading_frame = Some(IndexedFrame::new(frame, self.frames.len()));
@@ -753,7 +757,8 @@ impl RenderContext {
         let (lf_frame_idx, reference) = if let Some(deps) = self.frame_deps.get(frame.index()) {
             (deps.lf, deps.ref_slots)
         } else {
-            (self.lf_frame[header.lf_level as usize], self.reference)
+            let lf_frame = self.lf_frame.get(header.lf_level as usize).copied();
+            (lf_frame.unwrap_or(usize::MAX), self.reference)
         };
         if header.flags.use_lf_frame() {
             self.spawn_renderer(lf_frame_idx);
